@@ -4,7 +4,7 @@ schedules (coq/Par), tied to /repo by (a) real-TBB runs of every template with
 1..16 threads, (b) a seeded schedule simulator (harness/verif_sched.h) whose
 logged schedules are accepted by the extracted legality predicates and replayed
 by the extracted model, (c) real threads on DisjointSets / HashTableD."""
-import os, random, re, threading
+import os, random, re, threading, time
 import vp
 
 LEVEL = "proof"
@@ -30,10 +30,10 @@ META = {
 }
 
 SMALL_THR, SMALL_MAXBUF = 4, 8
-ALGS_MODEL = ["sort_cmp", "sort_less", "sort_u32", "sort_u64", "sort_sz", "sort_i32", "mergerec", "reduce", "treduce", "count_if", "all_of",
+ALGS_MODEL = ["sort_cmp", "sort_less", "sort_u32", "sort_u64", "sort_sz", "sort_i32", "sort_i64", "mergerec", "reduce", "treduce", "count_if", "all_of",
               "incl_scan", "excl_scan", "copy_if", "remove_if", "remove", "unique", "for_each", "for_each_n", "transform",
               "copy", "copy_n", "fill", "sequence", "gather", "scatter"]
-IDENT = {0: 0, 1: -(2 ** 63), 2: 2 ** 63 - 1, 3: 0}
+IDENT = {0: 0, 1: -(2 ** 60), 2: 2 ** 60, 3: 0}     # within OCaml's 63-bit ints; identities on the generated value domain [0, 2^62)
 
 
 def read_consts():
@@ -50,9 +50,12 @@ def write_small_header(src, m1, m2):
     os.makedirs(d, exist_ok=True)
     s = src[:m1.start()] + "constexpr size_t kSeqThreshold = %d;" % SMALL_THR + src[m1.end():]
     s = re.sub(r"constexpr\s+size_t\s+MAX_BUFFER_SIZE\s*=\s*1\s*<<\s*\d+\s*;", "constexpr size_t MAX_BUFFER_SIZE = %d;" % SMALL_MAXBUF, s)
-    p = os.path.join(d, "parallel_small.h")
+    import hashlib
+    p = os.path.join(d, "parallel_small_%s.h" % hashlib.sha256((vp.REPO + s).encode()).hexdigest()[:12])   # per repo tree: concurrent checks must not share it
     if not os.path.exists(p) or open(p).read() != s:
-        open(p, "w").write(s)
+        tmp = p + ".%d.tmp" % os.getpid()
+        open(tmp, "w").write(s)
+        os.replace(tmp, p)
     return p
 
 
@@ -101,6 +104,8 @@ def make_case(rng, cid, alg, n, threads, dump, known_probe=False):
         x = [v * rng.choice([1, 257, 65537]) % (1 << 31) for v in x]
     elif alg in ("sort_u64", "sort_sz", "sort_i64"):
         x = [v * rng.choice([1, 257, (1 << 33) + 5]) % (1 << 62) for v in x]
+    if alg in ("sort_i32", "sort_i64"):
+        x = [v - rng.choice([0, 2, 1 << 20]) if rng.random() < 0.6 else v for v in x]
     seed = rng.randrange(1, 1 << 30)
     line = "CASE %d %s %d %d %d %d %d N %d %s" % (cid, alg, seed, threads, p1, p2, dump, len(x), " ".join(map(str, x)))
     if y is not None:
@@ -109,10 +114,14 @@ def make_case(rng, cid, alg, n, threads, dump, known_probe=False):
 
 
 def classify(c, maxbuf):
-    """violation key for an implementation result that differs from the std:: algorithm"""
+    """violation key for an implementation result that differs from the std:: algorithm.
+    The three defects found on the pinned tree (fixed by fc899df2, 8dafdd9e, 1f3be2f4) keep
+    their specific keys so that a regression is recognisable."""
+    if c.get("probe"):
+        return c["probe"]
     if c["alg"] in ("reduce", "treduce") and c["p1"] != IDENT[c["p2"]]:
         return "reduce-nonidentity-init"
-    if c["alg"] == "unique" and c["n"] > maxbuf:
+    if c["alg"] == "unique" and any(c["x"][k - 1] == c["x"][k] for k in range(maxbuf, c["n"], maxbuf)):
         return "unique-chunk-boundary-duplicate"
     if c["alg"] in ("sort_i32", "sort_i64") and any(v < 0 for v in c["x"]):
         return "radix-signed-negative"
@@ -132,7 +141,25 @@ def parse_R(out):
     return res, mism, sched
 
 
+class Stages:
+    """wall and CPU (user+sys of this process and its children) per stage -> evidence"""
+    def __init__(self, cx):
+        self.cx, self.rows = cx, []
+        self.t = time.time(); self.c = self.cpu()
+    @staticmethod
+    def cpu():
+        t = os.times()
+        return t[0] + t[1] + t[2] + t[3]
+    def mark(self, name):
+        now, c = time.time(), self.cpu()
+        self.rows.append({"stage": name, "wall_s": round(now - self.t, 1), "cpu_s": round(c - self.c, 1)})
+        self.cx.log("stage %-18s wall %6.1fs cpu %6.1fs" % (name, now - self.t, c - self.c))
+        self.t, self.c = now, c
+        self.cx.cov["stage_times"] = self.rows
+
+
 def run(cx):
+    st = Stages(cx)
     cx.assumptions += [
         "std::merge, std::stable_sort (on a block), std::lower_bound/upper_bound (on sorted runs), std::copy, std::reduce (on a block, associative op) are modelled by their specification",
         "list-level model: buffer index arithmetic of mergeRec/mergeSortRec is abstracted (a two-buffer model msort_buf is executed in the correspondence, not proved)",
@@ -156,7 +183,9 @@ def run(cx):
         bad = "OpUnknown" in s or "IOther" in s
         cx.obligation("reduce-site:" + s.split()[1], not bad,
                       "call site passes an init that is not recognised as the identity of its op (reduce re-seeds every split body with init): " + s)
+    st.mark('translate')
     cx.prove()
+    st.mark('coq proofs')
     if not okc:
         return
     small_h = write_small_header(src, m1, m2)
@@ -177,7 +206,7 @@ def run(cx):
     for t in ths: t.join()
     if errs:
         raise vp.BuildError(errs[0])
-    cx.log('harnesses built')
+    st.mark('extract+builds')
 
     rng = random.Random(cx.seed * 104729 + 13)
     cid = [0]
@@ -195,7 +224,7 @@ def run(cx):
                 sim_cases.append(make_case(rng, nid(), alg, n, rng.choice([1, 2, 4, 8]), 1))
             pars_cases.append(make_case(rng, nid(), alg, n, rng.choice([1, 2, 3, 5, 8, 16]), 1))
     # real thresholds: t-1, t, t+1, 2t+3, 10t+7 for the thresholds in the source
-    for alg in ALGS_MODEL + ["sort_i64"]:
+    for alg in ALGS_MODEL:
         tt = maxbuf if alg == "unique" else (thr // 4 if alg in ("sort_u32", "sort_i32") else thr // 8 if alg in ("sort_u64", "sort_sz", "sort_i64") else thr)
         lens = [tt - 1, tt, tt + 1, 2 * tt + 3, 10 * tt + 7]
         if cx.quick() and alg not in ("sort_cmp", "excl_scan", "copy_if", "reduce", "sort_u32", "for_each"):
@@ -205,10 +234,8 @@ def run(cx):
         for n in lens:
             for th in ([rng.choice([2, 3, 5, 8, 16])] if cx.quick() else [1, 2, 3, 5, 8, 16]):
                 c = make_case(rng, nid(), alg, n, th, 0)
-                if alg == "unique":   # keep the main stream clear of the chunk-boundary defect: strictly increasing input
-                    c["x"] = list(range(c["n"])); c["line"] = re.sub(r" N .*", " N %d %s" % (c["n"], " ".join(map(str, c["x"]))), c["line"])
                 real_cases.append(c)
-    # finding probes on the real code
+    # regression probes for the three defects found on the pinned tree (now fixed): must agree with std::
     probes = []
     ones = "CASE %d reduce 1 16 10 0 1 N %d %s" % (nid(), 20 * thr, " ".join(["1"] * (20 * thr)))
     probes.append(dict(id=cid[0], alg="reduce", n=20 * thr, p1=10, p2=0, x=[], threads=16, seed=1, line=ones, probe="reduce-nonidentity-init"))
@@ -217,14 +244,13 @@ def run(cx):
     ng = "CASE %d sort_i32 1 4 0 0 1 N 6 3 -1 2 -5 0 7" % nid()
     probes.append(dict(id=cid[0], alg="sort_i32", n=6, p1=0, p2=0, x=[3, -1, 2, -5, 0, 7], threads=4, seed=1, line=ng, probe="radix-signed-negative"))
 
-    cx.log('cases generated: sim %d, par_small %d, par_real %d' % (len(sim_cases), len(pars_cases), len(real_cases)))
+    st.mark('generate cases')
     kl = lambda l: l.split()[1] if l.startswith("CASE") else None
     ko = lambda l: l.split()[1] if l.startswith("R ") else None
     outs = {}
 
     def runner(tag, exe, cases):
         outs[tag] = vp.run_cases(exe, [c["line"] for c in cases], kl, ko, timeout=1200)
-        cx.log('ran ' + tag)
     jobs = [("sim", exes["sim"], sim_cases), ("par_small", exes["par_small"], pars_cases),
             ("par_real", exes["par_real"], real_cases + probes)]
     ths = [threading.Thread(target=runner, args=j) for j in jobs]
@@ -278,10 +304,11 @@ def run(cx):
         inp.append("END %d" % c["id"])
     inp.append("PARAMS %d %d" % (thr, maxbuf))
     pc = bycase.get(str(probes[2]["id"]))
-    cx.log('running model')
+    st.mark('harness runs')
     rc, mout, merr = vp.sh2([drv], input="\n".join(inp) + "\n", timeout=1500)
     if rc != 0:
         cx.broke("corr:C13/model-driver", "model driver exited %d: %s" % (rc, merr[-300:]))
+        cx.log("MODEL DRIVER FAILED rc=%d %s" % (rc, merr[-200:]))
     mres = {}
     for l in mout.splitlines():
         if l.startswith("R "):
@@ -299,17 +326,15 @@ def run(cx):
             cx.broke("sched:C13/illegal-schedule#case %s" % k, "a schedule logged by the simulator is rejected by Sched.legal_*: %s" % " | ".join(c["sched"])[:300])
         if rest == "SKIP": continue
         stats["model_compared"] += 1
-        # a non-identity init makes reduce schedule dependent: under real TBB the schedule is unknown
-        if c["tag"] == "par_small" and c["alg"] in ("reduce", "treduce") and c["p1"] != IDENT[c["p2"]]: continue
         if rest != c["impl"]:
             nm += 1
             if nm <= 3:
                 cx.broke("corr:C13/%s#case %s" % (c["alg"], k), "model (under the logged schedule) and implementation differ (%s): impl=%s model=%s case=%s" %
                          (c["tag"], c["impl"][:120], rest[:120], c["line"][:160]))
     stats["model_mismatches"] = nm
-    cx.log('model compared')
+    st.mark('model run+compare')
     containers(cx, exes["uf"], rng, stats)
-    cx.log('containers done')
+    st.mark('containers')
     cx.cov.update({"evaluations": stats["sim"] + stats["par_small"] + stats["par_real"] + stats.get("uf", 0) + stats.get("ht", 0),
                    "distinct_nontrivial": nontriv,
                    "rule": "distinct (alg, input, params, schedule); non-trivial = n >= 2, duplicate keys present (sorts) and a schedule with >= 1 split / split-off scan body (sim) or a real-TBB run",
@@ -322,7 +347,7 @@ def run(cx):
 def containers(cx, exe, rng, stats):
     lines, meta = [], {}
     cid = 0
-    for _ in range(cx.pick(120, 3000)):
+    for _ in range(cx.pick(40, 3000)):
         cid += 1
         n = rng.choice([2, 3, 4, 6, 10, 40])
         th = rng.choice([2, 3])
@@ -335,6 +360,16 @@ def containers(cx, exe, rng, stats):
         pairs = pairs[:m]
         rounds = 300 if n <= 6 else 40
         lines.append("UF %d %d %d %d %d %s" % (cid, n, th, rounds, len(pairs), " ".join("%d %d" % p for p in pairs)))
+        meta[str(cid)] = lines[-1]
+    # mirrored unions racing in two threads: (2k,2k+1) in thread 0 against (2k+1,2k) in thread 1
+    for _ in range(cx.pick(12, 200)):
+        cid += 1
+        n = rng.choice([8, 16, 32, 64])
+        ks = list(range(n // 2)); rng.shuffle(ks)
+        pairs = []
+        for k in ks:
+            pairs += [(2 * k, 2 * k + 1), (2 * k + 1, 2 * k)]
+        lines.append("UF %d %d 2 400 %d %s" % (cid, n, len(pairs), " ".join("%d %d" % p for p in pairs)))
         meta[str(cid)] = lines[-1]
     for _ in range(cx.pick(60, 1500)):
         cid += 1
